@@ -38,7 +38,8 @@ def _matrix(sym, N, D, prefix="x"):
 def h_pareto(sym, N=3, D=2):
     import syne_tune.optimizer.schedulers.multiobjective.non_dominated_priority as ND
     rows = _matrix(sym, N, D)
-    mask = ND.pareto_efficient(SymMat(rows))
+    # concrete replay runs on a real numpy array (no carrier)
+    mask = ND.pareto_efficient(SymMat(rows) if sym.symbolic else np.array(rows, dtype=float))
     sym.check(len(mask) == N, "C19.pareto-mask-length")
     nd = 0
     for i in range(N):
@@ -93,9 +94,10 @@ def h_ndsort(sym, N=3, D=2, with_max_items=False):
                     break
         dim = sym.choice("dim", D + 1)
         dim = None if dim == D else dim
-        order = ND.nondominated_sort(SymMat(rows), dim=dim, max_items=max_items)
+        mk = (lambda: SymMat(rows)) if sym.symbolic else (lambda: np.array(rows, dtype=float))
+        order = ND.nondominated_sort(mk(), dim=dim, max_items=max_items)
         ND.compute_epsilon_net = _PermEps(sym, replay=ND.compute_epsilon_net.chosen)
-        nested = ND.nondominated_sort(SymMat(rows), dim=dim, max_items=max_items, flatten=False)
+        nested = ND.nondominated_sort(mk(), dim=dim, max_items=max_items, flatten=False)
     finally:
         ND.compute_epsilon_net = saved
     order = [int(i) for i in order]
